@@ -32,7 +32,7 @@ mod listing {
     //!   `o:<option>:<0|1>`           `set ±o option`
     //!   `f:<name>:<body index>`      `'name'() body`   (`fq:` = name needs quoting, `fk:` = name is a keyword)
     //! Observation: the texts printed by `alias`, `typeset -p`, `export -p`, `readonly -p`, `set`, `trap`,
-    //! `umask` (hex).  Oracle: every listing (also `set +o`, `umask -S`, `typeset -fp`) evaluated in a fresh
+    //! `umask`, `set +o` (hex).  Oracle: every listing (also `umask -S`, `typeset -fp`) evaluated in a fresh
     //! shell recreates what it lists (state snapshots compared), and every listed command line is made of
     //! literal-only words for the real lexer.
     use super::*;
@@ -417,7 +417,7 @@ mod listing {
                 verdict.get_or_insert(format!("FAIL:{k}:not-literal-only"));
             }
         }
-        let obs: Vec<String> = KINDS.iter().take(7).enumerate().map(|(i, (k, _))| format!("{k}={}", h(texts[i]))).collect();
+        let obs: Vec<String> = KINDS.iter().take(8).enumerate().map(|(i, (k, _))| format!("{k}={}", h(texts[i]))).collect();
         emit(case, &obs.join(" "), &verdict.unwrap_or_else(|| "ok".into()));
     }
 
